@@ -1,7 +1,125 @@
-//! Family `atomic`: shuttle::sync::atomic::AtomicUsize, 2 variables, SC interleaving model.
+//! Family `atomic`: shuttle::sync::atomic::AtomicUsize, 2 variables, SC interleaving model; plus
+//! (set `rmw`) EVERY read-modify-write entry point of the integer, bool and pointer atomics on one
+//! shared variable per type (`AOp::X`), each raced against a store, another RMW and itself.
 
 use crate::prog::*;
-use shuttle::sync::atomic::{AtomicUsize, Ordering};
+use shuttle::sync::atomic::{AtomicBool, AtomicI64, AtomicI8, AtomicPtr, AtomicU8, AtomicUsize, Ordering};
+
+/// the typed variables of the `rmw` set
+#[derive(Clone, Copy, Debug, PartialEq, Eq, Hash)]
+pub enum XVar {
+    I8,
+    U8,
+    I64,
+    Bool,
+    Ptr,
+}
+
+#[derive(Clone, Copy, Debug, PartialEq, Eq, Hash)]
+pub enum XKind {
+    Load,
+    Store,
+    Swap,
+    Cas,
+    CasWeak,
+    /// deprecated compare_and_swap
+    CasOld,
+    Add,
+    Sub,
+    And,
+    Nand,
+    Or,
+    Xor,
+    Max,
+    Min,
+    /// fetch_update(|x| (x != a).then(|| b)): refuses exactly one value
+    UpdateUnless,
+}
+
+impl XVar {
+    fn idx(self) -> usize {
+        match self {
+            XVar::I8 => 0,
+            XVar::U8 => 1,
+            XVar::I64 => 2,
+            XVar::Bool => 3,
+            XVar::Ptr => 4,
+        }
+    }
+    /// value domain of the model: the i64 image of the typed value
+    fn norm(self, v: i64) -> i64 {
+        match self {
+            XVar::I8 => v as i8 as i64,
+            XVar::U8 => v as u8 as i64,
+            XVar::I64 => v,
+            XVar::Bool => (v != 0) as i64,
+            XVar::Ptr => v.rem_euclid(4),
+        }
+    }
+    fn supports(self, k: XKind) -> bool {
+        use XKind::*;
+        match self {
+            XVar::I8 | XVar::U8 | XVar::I64 => true,
+            XVar::Bool => !matches!(k, Add | Sub | Max | Min),
+            XVar::Ptr => matches!(k, Load | Store | Swap | Cas | CasWeak | CasOld | UpdateUnless),
+        }
+    }
+}
+
+static CELLS: [u32; 4] = [10, 11, 12, 13];
+fn ptr_of(i: i64) -> *mut u32 {
+    &CELLS[i.rem_euclid(4) as usize] as *const u32 as *mut u32
+}
+fn idx_of(p: *mut u32) -> i64 {
+    CELLS.iter().position(|c| c as *const u32 == p as *const u32).expect("pointer from nowhere") as i64
+}
+
+pub struct AObjs {
+    u: Vec<AtomicUsize>,
+    i8_: AtomicI8,
+    u8_: AtomicU8,
+    i64_: AtomicI64,
+    b: AtomicBool,
+    p: AtomicPtr<u32>,
+}
+
+/// initial values of the typed variables (chosen next to the wrap-around points)
+const X_INIT: [i64; 5] = [126, 254, -1, 0, 0];
+
+/// the result of an RMW on the i64 image (what the new value is), None = no write
+fn x_apply(var: XVar, k: XKind, old: i64, a: i64, b: i64) -> Option<i64> {
+    use XKind::*;
+    let n = |v: i64| var.norm(v);
+    Some(match k {
+        Load => return None,
+        Store | Swap => n(a),
+        Cas | CasWeak | CasOld => {
+            if old == n(a) {
+                n(b)
+            } else {
+                return None;
+            }
+        }
+        Add => n(old.wrapping_add(n(a))),
+        Sub => n(old.wrapping_sub(n(a))),
+        And => n(old & n(a)),
+        Nand => match var {
+            XVar::Bool => n(!((old != 0) && (n(a) != 0)) as i64),
+            _ => n(!(old & n(a))),
+        },
+        Or => n(old | n(a)),
+        Xor => n(old ^ n(a)),
+        Max => old.max(n(a)),
+        Min => old.min(n(a)),
+        UpdateUnless => {
+            if old != n(a) {
+                n(b)
+            } else {
+                return None;
+            }
+        }
+    })
+}
 
 #[derive(Clone, Debug, PartialEq, Eq, Hash)]
 pub enum AOp {
@@ -14,6 +132,8 @@ pub enum AOp {
     FetchMax(usize, usize),
     /// fetch_update with a closure that refuses odd values: Some(v+10) if even else None
     FetchUpdateEven(usize),
+    /// typed variable, entry point, two arguments (see `x_apply`)
+    X(XVar, XKind, i64, i64),
 }
 
 #[derive(Clone, Debug, PartialEq, Eq, Hash, PartialOrd, Ord)]
@@ -32,16 +152,25 @@ impl Family for AtomicFam {
     type Op = AOp;
     type Res = ARes;
     type Cfg = usize; // number of variables
-    type Objs = Vec<AtomicUsize>;
+    type Objs = AObjs;
     type Locals = ();
-    type M = Vec<usize>;
+    /// the usize variables, then the five typed ones (i64 images)
+    type M = Vec<i64>;
     const NAME: &'static str = "atomic";
 
-    fn make_objs(cfg: &usize, _n: usize) -> Vec<AtomicUsize> {
-        (0..*cfg).map(|_| AtomicUsize::new(0)).collect()
+    fn make_objs(cfg: &usize, _n: usize) -> AObjs {
+        AObjs {
+            u: (0..*cfg).map(|_| AtomicUsize::new(0)).collect(),
+            i8_: AtomicI8::new(X_INIT[0] as i8),
+            u8_: AtomicU8::new(X_INIT[1] as u8),
+            i64_: AtomicI64::new(X_INIT[2]),
+            b: AtomicBool::new(X_INIT[3] != 0),
+            p: AtomicPtr::new(ptr_of(X_INIT[4])),
+        }
     }
     fn new_locals(_cfg: &usize, _t: usize) {}
-    fn exec(o: &Vec<AtomicUsize>, _l: &mut (), t: usize, op: &AOp) -> ARes {
+    fn exec(objs: &AObjs, _l: &mut (), t: usize, op: &AOp) -> ARes {
+        let o = &objs.u;
         // vary the ordering with the thread: Shuttle must treat them all as SeqCst
         let ord = ORD[t % 3];
         let (ld, st) = match ord {
@@ -69,11 +198,95 @@ impl Family for AtomicFam {
                 Ok(v) => ARes::Ok(v),
                 Err(v) => ARes::Err(v),
             },
+            AOp::X(var, k, a, b) => {
+                let (a, b) = (*a, *b);
+                let val = |v: i64| ARes::Val(v as usize);
+                let res = |r: Result<i64, i64>| match r {
+                    Ok(v) => ARes::Ok(v as usize),
+                    Err(v) => ARes::Err(v as usize),
+                };
+                macro_rules! int_ops {
+                    ($cell:expr, $t:ty) => {{
+                        let c = &$cell;
+                        let (a, b) = (a as $t, b as $t);
+                        match k {
+                            XKind::Load => val(c.load(ld) as i64),
+                            XKind::Store => {
+                                c.store(a, st);
+                                ARes::Unit
+                            }
+                            XKind::Swap => val(c.swap(a, ord) as i64),
+                            XKind::Cas => res(c.compare_exchange(a, b, ord, ld).map(|v| v as i64).map_err(|v| v as i64)),
+                            XKind::CasWeak => res(c.compare_exchange_weak(a, b, ord, ld).map(|v| v as i64).map_err(|v| v as i64)),
+                            #[allow(deprecated)]
+                            XKind::CasOld => val(c.compare_and_swap(a, b, ord) as i64),
+                            XKind::Add => val(c.fetch_add(a, ord) as i64),
+                            XKind::Sub => val(c.fetch_sub(a, ord) as i64),
+                            XKind::And => val(c.fetch_and(a, ord) as i64),
+                            XKind::Nand => val(c.fetch_nand(a, ord) as i64),
+                            XKind::Or => val(c.fetch_or(a, ord) as i64),
+                            XKind::Xor => val(c.fetch_xor(a, ord) as i64),
+                            XKind::Max => val(c.fetch_max(a, ord) as i64),
+                            XKind::Min => val(c.fetch_min(a, ord) as i64),
+                            XKind::UpdateUnless => res(c.fetch_update(ord, ld, |x| (x != a).then_some(b)).map(|v| v as i64).map_err(|v| v as i64)),
+                        }
+                    }};
+                }
+                match var {
+                    XVar::I8 => int_ops!(objs.i8_, i8),
+                    XVar::U8 => int_ops!(objs.u8_, u8),
+                    XVar::I64 => int_ops!(objs.i64_, i64),
+                    XVar::Bool => {
+                        let c = &objs.b;
+                        let (a, b) = (a != 0, b != 0);
+                        match k {
+                            XKind::Load => val(c.load(ld) as i64),
+                            XKind::Store => {
+                                c.store(a, st);
+                                ARes::Unit
+                            }
+                            XKind::Swap => val(c.swap(a, ord) as i64),
+                            XKind::Cas => res(c.compare_exchange(a, b, ord, ld).map(|v| v as i64).map_err(|v| v as i64)),
+                            XKind::CasWeak => res(c.compare_exchange_weak(a, b, ord, ld).map(|v| v as i64).map_err(|v| v as i64)),
+                            #[allow(deprecated)]
+                            XKind::CasOld => val(c.compare_and_swap(a, b, ord) as i64),
+                            XKind::And => val(c.fetch_and(a, ord) as i64),
+                            XKind::Nand => val(c.fetch_nand(a, ord) as i64),
+                            XKind::Or => val(c.fetch_or(a, ord) as i64),
+                            XKind::Xor => val(c.fetch_xor(a, ord) as i64),
+                            XKind::UpdateUnless => res(c.fetch_update(ord, ld, |x| (x != a).then_some(b)).map(|v| v as i64).map_err(|v| v as i64)),
+                            _ => unreachable!("not an AtomicBool entry point"),
+                        }
+                    }
+                    XVar::Ptr => {
+                        let c = &objs.p;
+                        let (pa, pb) = (ptr_of(a), ptr_of(b));
+                        match k {
+                            XKind::Load => val(idx_of(c.load(ld))),
+                            XKind::Store => {
+                                c.store(pa, st);
+                                ARes::Unit
+                            }
+                            XKind::Swap => val(idx_of(c.swap(pa, ord))),
+                            XKind::Cas => res(c.compare_exchange(pa, pb, ord, ld).map(idx_of).map_err(idx_of)),
+                            XKind::CasWeak => res(c.compare_exchange_weak(pa, pb, ord, ld).map(idx_of).map_err(idx_of)),
+                            #[allow(deprecated)]
+                            XKind::CasOld => val(idx_of(c.compare_and_swap(pa, pb, ord))),
+                            XKind::UpdateUnless => res(c.fetch_update(ord, ld, |x| (x != pa).then_some(pb)).map(idx_of).map_err(idx_of)),
+                            _ => unreachable!("not an AtomicPtr entry point"),
+                        }
+                    }
+                }
+            }
         }
     }
     fn objects_of(op: &AOp) -> Vec<u32> {
+        if let AOp::X(var, ..) = op {
+            return vec![0x380 + var.idx() as u32];
+        }
         let a = match op {
             AOp::Load(a) | AOp::Store(a, _) | AOp::Swap(a, _) | AOp::Cas(a, _, _) | AOp::CasWeak(a, _, _) | AOp::FetchAdd(a, _) | AOp::FetchMax(a, _) | AOp::FetchUpdateEven(a) => *a,
+            AOp::X(..) => unreachable!(),
         };
         vec![0x300 + a as u32]
     }
@@ -85,10 +298,13 @@ impl Family for AtomicFam {
             let EKind::Ret(GRes::R(r)) = &e.kind else { continue };
             let GOp::Op(op) = &p.threads[e.thread][e.op] else { continue };
             let var = Self::objects_of(op)[0] as usize;
-            let reads = !matches!(op, AOp::Store(..));
+            let reads = !matches!(op, AOp::Store(..) | AOp::X(_, XKind::Store, ..));
             let wrote = match op {
-                AOp::Load(_) => false,
+                AOp::Load(_) | AOp::X(_, XKind::Load, ..) => false,
                 AOp::Cas(..) | AOp::CasWeak(..) | AOp::FetchUpdateEven(_) => matches!(r, ARes::Ok(_)),
+                AOp::X(_, XKind::Cas | XKind::CasWeak | XKind::UpdateUnless, ..) => matches!(r, ARes::Ok(_)),
+                // the deprecated compare_and_swap does not say whether it wrote: no required edge from it
+                AOp::X(_, XKind::CasOld, ..) => false,
                 _ => true,
             };
             if reads {
@@ -102,56 +318,84 @@ impl Family for AtomicFam {
         }
         out
     }
-    fn m_init(cfg: &usize, _n: usize) -> Vec<usize> {
-        vec![0; *cfg]
+    fn m_init(cfg: &usize, _n: usize) -> Vec<i64> {
+        let mut v = vec![0; *cfg];
+        v.extend(X_INIT);
+        v
     }
-    fn m_step(m: &Vec<usize>, _t: usize, op: &AOp, _ph: u8, strict: bool) -> Vec<MStep<Vec<usize>, ARes>> {
+    fn m_step(m: &Vec<i64>, _t: usize, op: &AOp, _ph: u8, strict: bool) -> Vec<MStep<Vec<i64>, ARes>> {
         let mut n = m.clone();
+        if let AOp::X(var, k, a, b) = op {
+            let slot = m.len() - 5 + var.idx();
+            let old = m[slot];
+            let new = x_apply(*var, *k, old, *a, *b);
+            if let Some(v) = new {
+                n[slot] = v;
+            }
+            let r = match k {
+                XKind::Store => ARes::Unit,
+                XKind::Cas | XKind::CasWeak | XKind::UpdateUnless => {
+                    if new.is_some() {
+                        ARes::Ok(old as usize)
+                    } else {
+                        ARes::Err(old as usize)
+                    }
+                }
+                _ => ARes::Val(old as usize),
+            };
+            let mut out = vec![];
+            if *k == XKind::CasWeak && new.is_some() && !strict {
+                out.push(MStep::Done(m.clone(), ARes::Err(old as usize)));
+            }
+            out.push(MStep::Done(n, r));
+            return out;
+        }
         let r = match op {
-            AOp::Load(a) => ARes::Val(n[*a]),
+            AOp::Load(a) => ARes::Val(n[*a] as usize),
             AOp::Store(a, v) => {
-                n[*a] = *v;
+                n[*a] = *v as i64;
                 ARes::Unit
             }
             AOp::Swap(a, v) => {
-                let old = n[*a];
-                n[*a] = *v;
+                let old = n[*a] as usize;
+                n[*a] = *v as i64;
                 ARes::Val(old)
             }
             AOp::Cas(a, e, nw) | AOp::CasWeak(a, e, nw) => {
-                if n[*a] == *e {
-                    let old = n[*a];
+                if n[*a] as usize == *e {
+                    let old = n[*a] as usize;
                     let mut out = Vec::new();
                     // compare_exchange_weak may fail spuriously (contract); Shuttle never does (strict)
                     if matches!(op, AOp::CasWeak(..)) && !strict {
                         out.push(MStep::Done(m.clone(), ARes::Err(old)));
                     }
-                    n[*a] = *nw;
+                    n[*a] = *nw as i64;
                     out.push(MStep::Done(n, ARes::Ok(old)));
                     return out;
                 } else {
-                    ARes::Err(n[*a])
+                    ARes::Err(n[*a] as usize)
                 }
             }
             AOp::FetchAdd(a, v) => {
-                let old = n[*a];
-                n[*a] = old.wrapping_add(*v);
+                let old = n[*a] as usize;
+                n[*a] = old.wrapping_add(*v) as i64;
                 ARes::Val(old)
             }
             AOp::FetchMax(a, v) => {
-                let old = n[*a];
-                n[*a] = old.max(*v);
+                let old = n[*a] as usize;
+                n[*a] = old.max(*v) as i64;
                 ARes::Val(old)
             }
             AOp::FetchUpdateEven(a) => {
-                let old = n[*a];
+                let old = n[*a] as usize;
                 if old % 2 == 0 {
-                    n[*a] = old + 10;
+                    n[*a] = (old + 10) as i64;
                     ARes::Ok(old)
                 } else {
                     ARes::Err(old)
                 }
             }
+            AOp::X(..) => unreachable!(),
         };
         vec![MStep::Done(n, r)]
     }
@@ -202,6 +446,7 @@ pub fn programs(vars: usize, children: usize, k: usize, alpha: &[AOp]) -> Vec<Pr
             s.iter()
                 .map(|o| match o {
                     AOp::Load(a) | AOp::Store(a, _) | AOp::Swap(a, _) | AOp::Cas(a, _, _) | AOp::CasWeak(a, _, _) | AOp::FetchAdd(a, _) | AOp::FetchMax(a, _) | AOp::FetchUpdateEven(a) => *a,
+                    AOp::X(var, ..) => 100 + var.idx(),
                 })
                 .collect()
         };
@@ -220,8 +465,65 @@ pub fn programs(vars: usize, children: usize, k: usize, alpha: &[AOp]) -> Vec<Pr
     out
 }
 
+/// Every entry point of every atomic type on one shared variable: `T1 [X] ‖ T2 [peer]`, main reads the
+/// final value after the joins; peers = a store, an RMW whose effect does not commute with anything
+/// (xor / swap), and X itself.  A read-modify-write that is not one indivisible step loses one of
+/// the two updates in some schedule, which no interleaving of the model explains.
+pub fn rmw_programs(three: bool) -> Vec<Program<AtomicFam>> {
+    use XKind::*;
+    let kinds = [Load, Store, Swap, Cas, CasWeak, CasOld, Add, Sub, And, Nand, Or, Xor, Max, Min, UpdateUnless];
+    let mut out = Vec::new();
+    for (vi, var) in [XVar::I8, XVar::U8, XVar::I64, XVar::Bool, XVar::Ptr].into_iter().enumerate() {
+        let init = X_INIT[vi];
+        // arguments: something that changes the value from the initial one and from the peers' results
+        let args = |k: XKind| -> (i64, i64) {
+            match (var, k) {
+                (_, Cas | CasWeak | CasOld) => (init, init + 3),
+                (_, UpdateUnless) => (init + 1, init + 2),
+                (XVar::Bool, _) => (1, 0),
+                (XVar::Ptr, _) => (2, 0),
+                (_, And) => (0x5a, 0),
+                (_, Max) => (init + 1, 0),
+                (_, Min) => (init - 1, 0),
+                _ => (3, 0),
+            }
+        };
+        let peers: Vec<AOp> = match var {
+            XVar::Bool => vec![AOp::X(var, Store, 1, 0), AOp::X(var, Xor, 1, 0), AOp::X(var, Cas, 0, 1)],
+            XVar::Ptr => vec![AOp::X(var, Store, 1, 0), AOp::X(var, Swap, 3, 0), AOp::X(var, Cas, 0, 1)],
+            _ => vec![AOp::X(var, Store, init + 1, 0), AOp::X(var, Xor, 0x11, 0), AOp::X(var, Add, 1, 0), AOp::X(var, Cas, init, init + 1)],
+        };
+        for k in kinds {
+            if !var.supports(k) {
+                continue;
+            }
+            let (a, b) = args(k);
+            let x = AOp::X(var, k, a, b);
+            let mut others = peers.clone();
+            others.push(x.clone());
+            for peer in others {
+                let mut main: Vec<GOp<AOp>> = vec![GOp::Spawn(1), GOp::Spawn(2)];
+                if three {
+                    main.push(GOp::Op(AOp::X(var, Xor, 1, 0)).clone());
+                    if matches!(var, XVar::Ptr) {
+                        main.pop();
+                        main.push(GOp::Op(AOp::X(var, Swap, 1, 0)));
+                    }
+                }
+                main.extend([GOp::Join(1), GOp::Join(2), GOp::Op(AOp::X(var, Load, 0, 0))]);
+                let t1 = vec![GOp::Op(x.clone()), GOp::Op(AOp::X(var, Load, 0, 0))];
+                let t2 = vec![GOp::Op(peer.clone())];
+                out.push(Program { cfg: 0, threads: vec![main, t1, t2] });
+            }
+        }
+    }
+    out
+}
+
 pub fn program_set(set: &str) -> Vec<Program<AtomicFam>> {
     match set {
+        "rmw" => rmw_programs(false),
+        "rmw3" => rmw_programs(true),
         "quick" => {
             let mut v = programs(1, 2, 2, &alphabet(1));
             let small2: Vec<AOp> = vec![AOp::Load(0), AOp::Store(0, 1), AOp::Load(1), AOp::Store(1, 1), AOp::FetchAdd(0, 1)];
